@@ -1,0 +1,467 @@
+//! Verification facade. Compiled only with `--cfg beetswap_verif`.
+//!
+//! Thin wrappers that expose crate-private pieces to an external harness. No logic of the
+//! crate lives here: every function forwards to the real implementation.
+
+use std::io;
+use std::pin::Pin;
+use std::sync::Arc;
+use std::task::{Context, Poll};
+
+use asynchronous_codec::{Decoder, Encoder, FramedRead};
+use blockstore::Blockstore;
+use bytes::BytesMut;
+use cid::CidGeneric;
+use futures_util::io::AsyncRead;
+use futures_util::stream::StreamExt;
+use libp2p_identity::PeerId;
+use libp2p_swarm::ConnectionId;
+
+use crate::cid_prefix::CidPrefix;
+use crate::incoming_stream::{ClientMessage, IncomingMessage, ServerMessage};
+use crate::message::Codec;
+use crate::multihasher::{Multihasher, MultihasherError, MultihasherTable};
+use crate::wantlist::{Wantlist, WantlistState};
+use crate::{Behaviour, ToBehaviourEvent};
+
+pub use crate::client::SendingState;
+pub use crate::proto::message::mod_Message::mod_Wantlist::{Entry, WantType};
+pub use crate::proto::message::mod_Message::{Block, BlockPresence, BlockPresenceType, Wantlist as ProtoWantlist};
+pub use crate::proto::message::Message;
+
+/// Virtual clock used by `client.rs` instead of `futures_timer::Delay` / `web_time::Instant`.
+pub mod clock {
+    use std::cell::RefCell;
+    use std::future::Future;
+    use std::pin::Pin;
+    use std::task::{Context, Poll, Waker};
+    use std::time::Duration;
+
+    thread_local! {
+        static NOW: RefCell<Duration> = const { RefCell::new(Duration::ZERO) };
+        static WAKERS: RefCell<Vec<Waker>> = const { RefCell::new(Vec::new()) };
+    }
+
+    /// Current virtual time (since the start of the thread).
+    pub fn now() -> Duration {
+        NOW.with(|n| *n.borrow())
+    }
+
+    /// Advance the virtual clock of this thread and wake every registered timer.
+    pub fn advance(d: Duration) {
+        NOW.with(|n| *n.borrow_mut() += d);
+        let wakers = WAKERS.with(|w| std::mem::take(&mut *w.borrow_mut()));
+        for w in wakers {
+            w.wake();
+        }
+    }
+
+    /// Reset the virtual clock of this thread to zero.
+    pub fn reset() {
+        NOW.with(|n| *n.borrow_mut() = Duration::ZERO);
+        WAKERS.with(|w| w.borrow_mut().clear());
+    }
+
+    #[derive(Debug, Clone, Copy, PartialEq, Eq, PartialOrd, Ord, Hash)]
+    pub struct Instant(Duration);
+
+    impl Instant {
+        pub fn now() -> Instant {
+            Instant(now())
+        }
+
+        pub fn elapsed(&self) -> Duration {
+            now().saturating_sub(self.0)
+        }
+
+        pub fn as_duration(&self) -> Duration {
+            self.0
+        }
+    }
+
+    #[derive(Debug)]
+    pub struct Delay {
+        deadline: Duration,
+    }
+
+    impl Delay {
+        pub fn new(dur: Duration) -> Delay {
+            Delay {
+                deadline: now() + dur,
+            }
+        }
+
+        pub fn reset(&mut self, dur: Duration) {
+            self.deadline = now() + dur;
+        }
+    }
+
+    impl Future for Delay {
+        type Output = ();
+
+        fn poll(self: Pin<&mut Self>, cx: &mut Context<'_>) -> Poll<()> {
+            if now() >= self.deadline {
+                Poll::Ready(())
+            } else {
+                WAKERS.with(|w| w.borrow_mut().push(cx.waker().clone()));
+                Poll::Pending
+            }
+        }
+    }
+}
+
+/// `message::MAX_MESSAGE_SIZE`
+pub const MAX_MESSAGE_SIZE: usize = crate::message::MAX_MESSAGE_SIZE;
+
+/// `Codec::encode`
+pub fn codec_encode(msg: &Message, dst: &mut BytesMut) -> io::Result<()> {
+    Codec.encode(msg, dst)
+}
+
+/// `Codec::decode`
+pub fn codec_decode(src: &mut BytesMut) -> io::Result<Option<Message>> {
+    Codec.decode(src)
+}
+
+/// `FramedRead<R, Codec>` as used by `IncomingStream`.
+pub struct VFramedRead<R>(FramedRead<R, Codec>);
+
+impl<R: AsyncRead + Unpin> VFramedRead<R> {
+    pub fn new(inner: R) -> Self {
+        VFramedRead(FramedRead::new(inner, Codec))
+    }
+
+    pub fn buffered(&self) -> usize {
+        self.0.read_buffer().len()
+    }
+
+    pub fn poll_next(&mut self, cx: &mut Context<'_>) -> Poll<Option<io::Result<Message>>> {
+        self.0.poll_next_unpin(cx)
+    }
+}
+
+/// `CidPrefix`
+#[derive(Debug, Clone, PartialEq, Eq)]
+pub struct VPrefix(CidPrefix);
+
+impl VPrefix {
+    pub fn from_cid<const S: usize>(cid: &CidGeneric<S>) -> VPrefix {
+        VPrefix(CidPrefix::from_cid(cid))
+    }
+
+    pub fn from_bytes(bytes: &[u8]) -> Option<VPrefix> {
+        CidPrefix::from_bytes(bytes).map(VPrefix)
+    }
+
+    pub fn to_bytes(&self) -> Vec<u8> {
+        self.0.to_bytes()
+    }
+
+    pub async fn to_cid<const S: usize>(
+        &self,
+        hasher: &VHasherTable<S>,
+        data: &[u8],
+    ) -> Result<CidGeneric<S>, MultihasherError> {
+        self.0.to_cid(&hasher.0, data).await
+    }
+
+    pub fn multihash_code(&self) -> u64 {
+        self.0.multihash_code()
+    }
+
+    pub fn debug(&self) -> String {
+        format!("{:?}", self.0)
+    }
+}
+
+/// `MultihasherTable`
+pub struct VHasherTable<const S: usize>(Arc<MultihasherTable<S>>);
+
+impl<const S: usize> VHasherTable<S> {
+    pub fn new() -> Self {
+        VHasherTable(Arc::new(MultihasherTable::new()))
+    }
+
+    /// Must be called before the table is shared.
+    pub fn register<M>(&mut self, multihasher: M)
+    where
+        M: Multihasher<S> + Send + Sync + 'static,
+    {
+        Arc::get_mut(&mut self.0)
+            .expect("table already shared")
+            .register(multihasher);
+    }
+
+    pub async fn hash(
+        &self,
+        code: u64,
+        input: &[u8],
+    ) -> Result<libp2p_core::multihash::Multihash<S>, MultihasherError> {
+        self.0.hash(code, input).await
+    }
+}
+
+impl<const S: usize> Default for VHasherTable<S> {
+    fn default() -> Self {
+        Self::new()
+    }
+}
+
+/// `IncomingMessage`
+pub struct VIncoming<const S: usize>(IncomingMessage<S>);
+
+impl<const S: usize> VIncoming<S> {
+    /// Build from parts. `client` / `server` are `None` exactly when the corresponding part
+    /// of `IncomingMessage` is `None`.
+    pub fn from_parts(
+        client: Option<(Vec<(CidGeneric<S>, BlockPresenceType)>, Vec<(CidGeneric<S>, Vec<u8>)>)>,
+        server: Option<ProtoWantlist>,
+    ) -> Self {
+        VIncoming(IncomingMessage {
+            client: client.map(|(p, b)| ClientMessage {
+                block_presences: p.into_iter().collect(),
+                blocks: b.into_iter().collect(),
+            }),
+            server: server.map(|wantlist| ServerMessage { wantlist }),
+        })
+    }
+
+    pub fn has_client(&self) -> bool {
+        self.0.client.is_some()
+    }
+
+    pub fn has_server(&self) -> bool {
+        self.0.server.is_some()
+    }
+
+    pub fn presences(&self) -> Vec<(CidGeneric<S>, BlockPresenceType)> {
+        self.0
+            .client
+            .as_ref()
+            .map(|c| c.block_presences.iter().map(|(k, v)| (*k, *v)).collect())
+            .unwrap_or_default()
+    }
+
+    pub fn blocks(&self) -> Vec<(CidGeneric<S>, Vec<u8>)> {
+        self.0
+            .client
+            .as_ref()
+            .map(|c| c.blocks.iter().map(|(k, v)| (*k, v.clone())).collect())
+            .unwrap_or_default()
+    }
+
+    pub fn wantlist(&self) -> Option<ProtoWantlist> {
+        self.0.server.as_ref().map(|s| s.wantlist.clone())
+    }
+}
+
+/// `incoming_stream::process_message`
+pub async fn process_message<const S: usize>(
+    table: &VHasherTable<S>,
+    msg: Message,
+) -> Option<VIncoming<S>> {
+    crate::incoming_stream::verif_process_message(table.0.clone(), msg)
+        .await
+        .map(VIncoming)
+}
+
+/// `wantlist::Wantlist`
+pub struct VWantlist<const S: usize>(Wantlist<S>);
+
+impl<const S: usize> VWantlist<S> {
+    pub fn new(set_send_dont_have: bool) -> Self {
+        VWantlist(Wantlist::new(set_send_dont_have))
+    }
+
+    pub fn insert(&mut self, cid: CidGeneric<S>) -> bool {
+        self.0.insert(cid)
+    }
+
+    pub fn remove(&mut self, cid: &CidGeneric<S>) -> bool {
+        self.0.remove(cid)
+    }
+}
+
+/// `wantlist::WantlistState`
+pub struct VWantlistState<const S: usize>(WantlistState<S>);
+
+impl<const S: usize> VWantlistState<S> {
+    pub fn new() -> Self {
+        VWantlistState(WantlistState::new())
+    }
+
+    pub fn is_updated(&self, w: &VWantlist<S>) -> bool {
+        self.0.is_updated(&w.0)
+    }
+
+    pub fn got_have(&mut self, cid: &CidGeneric<S>) {
+        self.0.got_have(cid)
+    }
+
+    pub fn got_dont_have(&mut self, cid: &CidGeneric<S>) {
+        self.0.got_dont_have(cid)
+    }
+
+    pub fn got_block(&mut self, cid: &CidGeneric<S>) {
+        self.0.got_block(cid)
+    }
+
+    pub fn generate_proto_full(&mut self, w: &VWantlist<S>) -> ProtoWantlist {
+        self.0.generate_proto_full(&w.0)
+    }
+
+    pub fn generate_proto_update(&mut self, w: &VWantlist<S>) -> ProtoWantlist {
+        self.0.generate_proto_update(&w.0)
+    }
+
+    /// (cid, state name) pairs, force_update, synced_revision
+    pub fn dump(&self) -> (Vec<(CidGeneric<S>, &'static str)>, bool, u64) {
+        self.0.verif_dump()
+    }
+}
+
+impl<const S: usize> Default for VWantlistState<S> {
+    fn default() -> Self {
+        Self::new()
+    }
+}
+
+/// `server::PeerWantlist`
+pub struct VPeerWantlist<const S: usize>(pub(crate) crate::server::VerifPeerWantlist<S>);
+
+impl<const S: usize> VPeerWantlist<S> {
+    pub fn new() -> Self {
+        VPeerWantlist(Default::default())
+    }
+
+    /// `PeerWantlist::process_wantlist`: returns (added, removed)
+    pub fn process_wantlist(
+        &mut self,
+        wantlist: ProtoWantlist,
+    ) -> (Vec<CidGeneric<S>>, Vec<CidGeneric<S>>) {
+        self.0.process(wantlist)
+    }
+
+    pub fn cids(&self) -> Vec<CidGeneric<S>> {
+        self.0.cids()
+    }
+}
+
+impl<const S: usize> Default for VPeerWantlist<S> {
+    fn default() -> Self {
+        Self::new()
+    }
+}
+
+/// Snapshot of `ClientBehaviour`'s tables.
+#[derive(Debug, Clone, Default)]
+pub struct ClientSnapshot<const S: usize> {
+    pub wantlist: Vec<CidGeneric<S>>,
+    pub revision: u64,
+    pub peers: Vec<PeerSnapshot<S>>,
+    pub cid_to_queries: Vec<(CidGeneric<S>, Vec<u64>)>,
+    pub query_abort_handle: Vec<u64>,
+    pub tasks: usize,
+    pub queue: usize,
+    pub new_blocks: usize,
+    pub next_query_id: u64,
+}
+
+#[derive(Debug, Clone)]
+pub struct PeerSnapshot<const S: usize> {
+    pub peer: PeerId,
+    pub connections: Vec<ConnectionId>,
+    pub sending_state: SendingState,
+    pub send_full: bool,
+    pub req_state: Vec<(CidGeneric<S>, &'static str)>,
+    pub force_update: bool,
+    pub synced_revision: u64,
+}
+
+/// Snapshot of `ServerBehaviour`'s tables.
+#[derive(Debug, Clone, Default)]
+pub struct ServerSnapshot<const S: usize> {
+    pub peers_wantlists: Vec<(PeerId, Vec<CidGeneric<S>>)>,
+    pub peers_waiting_for_cid: Vec<(CidGeneric<S>, Vec<PeerId>)>,
+    pub outgoing_queue: Vec<CidGeneric<S>>,
+    pub outgoing_event_queue: usize,
+    pub tasks: usize,
+}
+
+/// Drive and observe a whole `Behaviour` through its `NetworkBehaviour` entry points.
+pub struct VNode;
+
+impl VNode {
+    pub fn incoming<const S: usize, B: Blockstore + 'static>(
+        b: &mut Behaviour<S, B>,
+        peer: PeerId,
+        conn: ConnectionId,
+        msg: VIncoming<S>,
+    ) {
+        use libp2p_swarm::NetworkBehaviour;
+        b.on_connection_handler_event(peer, conn, ToBehaviourEvent::IncomingMessage(peer, msg.0));
+    }
+
+    pub fn sending_state_changed<const S: usize, B: Blockstore + 'static>(
+        b: &mut Behaviour<S, B>,
+        peer: PeerId,
+        conn: ConnectionId,
+        state: SendingState,
+    ) {
+        use libp2p_swarm::NetworkBehaviour;
+        b.on_connection_handler_event(
+            peer,
+            conn,
+            ToBehaviourEvent::SendingStateChanged(peer, state),
+        );
+    }
+
+    pub fn client_closing<const S: usize, B: Blockstore + 'static>(
+        b: &mut Behaviour<S, B>,
+        peer: PeerId,
+        conn: ConnectionId,
+    ) {
+        use libp2p_swarm::NetworkBehaviour;
+        b.on_connection_handler_event(
+            peer,
+            conn,
+            ToBehaviourEvent::ClientClosingConnection(peer, conn),
+        );
+    }
+
+    pub fn new_blocks_available<const S: usize, B: Blockstore + 'static>(
+        b: &mut Behaviour<S, B>,
+        peer: PeerId,
+        conn: ConnectionId,
+        blocks: Vec<(CidGeneric<S>, Vec<u8>)>,
+    ) {
+        use libp2p_swarm::NetworkBehaviour;
+        b.on_connection_handler_event(peer, conn, ToBehaviourEvent::NewBlocksAvailable(blocks));
+    }
+
+    pub fn client_snapshot<const S: usize, B: Blockstore + 'static>(
+        b: &Behaviour<S, B>,
+    ) -> ClientSnapshot<S> {
+        b.client.verif_snapshot()
+    }
+
+    pub fn server_snapshot<const S: usize, B: Blockstore + 'static>(
+        b: &Behaviour<S, B>,
+    ) -> ServerSnapshot<S> {
+        b.verif_server().verif_snapshot()
+    }
+
+    /// The protocol name the behaviour's handlers listen on.
+    pub fn protocol<const S: usize, B: Blockstore + 'static>(b: &Behaviour<S, B>) -> String {
+        b.verif_protocol()
+    }
+}
+
+/// Helper: poll something with a given waker.
+pub fn with_cx<T>(waker: &std::task::Waker, f: impl FnOnce(&mut Context<'_>) -> T) -> T {
+    let mut cx = Context::from_waker(waker);
+    f(&mut cx)
+}
+
+/// Helper for pinning boxed futures in harness code.
+pub type BoxFut<'a, T> = Pin<Box<dyn std::future::Future<Output = T> + 'a>>;
